@@ -1,0 +1,26 @@
+//go:build verif
+
+package repeat
+
+// Contracts for the deductive checks in /verif (comment-only; compiled only with -tags verif).
+
+// ---- C01 breadth: frame-only contracts ("modifies nothing": every store / append / copy / map write
+// targets memory allocated by the call itself; no functional postcondition is claimed here) ----
+//@ func CirclePoints frameonly
+//@   props C01
+//@ func Circle frameonly
+//@   props C01
+//@ func Spline frameonly
+//@   props C01
+//@ func SplineExlusive frameonly
+//@   props C01
+//@ func FibonacciSpherePoints frameonly
+//@   props C01
+//@ func FibonacciSphere frameonly
+//@   props C01
+//@ func Line frameonly
+//@   props C01
+//@ func LineExlusive frameonly
+//@   props C01
+//@ func Mesh frameonly
+//@   props C01
